@@ -15,9 +15,9 @@ MANIFEST = {
             "display text matches the numeral grammar (sign, integer digits grouped in threes, fraction | mantissa e "
             "exponent | NaN/Infinity/-Infinity), grouping/trimming/separator insertion change no value, integers "
             "below 2^53 in standard notation are shown exactly (no oracle), no overflow panic; the 15-significant-digit "
-            "accuracy clause is PARTIAL: refuted on the current code for a thin class just below powers of ten "
-            "(known finding, proposed fix), stated as C20_accuracy_full and decided by exact-rational search on the "
-            "implementation; model tied to the code by the DISPLAY correspondence (vm_compute vs Rust on bit patterns "
+            "accuracy clause is PARTIAL: proved for the scientific range (under library-correctness hypotheses) and "
+            "for integers; for standard-range non-integers it is stated as C20_accuracy_full and decided by "
+            "exact-rational search on the implementation (the defect C20-F1 found this way is fixed in /repo 60da55e); model tied to the code by the DISPLAY correspondence (vm_compute vs Rust on bit patterns "
             "and boundaries) and by ORACLE streams validating the executable library models",
     "note": "trusted: Coq kernel + vm_compute; hand transcription of format_display_number and helpers (validated by "
             "DISPLAY); library oracles log10/powi/{:.N}/{:.14e}/parse::<f64> are Section variables in the theorems "
@@ -421,7 +421,8 @@ def main(argv):
         compared += 1
         if known_class(b):
             in_class += 1
-            # open known-finding class: the code before and after the proposed repair are both accepted
+        if known and known_class(b):
+            # OPEN known-finding class: the code before and after the proposed repair are both accepted
             if r == mu and r == mf:
                 variant["both"] += 1
             elif r == mu:
@@ -431,16 +432,20 @@ def main(argv):
             else:
                 mism.append((b, r, mu, mf))
         else:
-            if mu != mf:
-                res.tie_broken("model: the repaired and unrepaired flog10 differ outside the known-finding class",
+            # strict: the model is the repaired code (fx = true, /repo commit 60da55e); outside the
+            # class of C20-F1 the pre-repair variant must give the same text
+            if mu != mf and not known_class(b):
+                res.tie_broken("model: the repaired and unrepaired flog10 differ outside the class of C20-F1",
                                "bits=%s unfixed=%s fixed=%s" % (hx(b), txt(mu), txt(mf)))
-            if r != mu:
+            if r != mf:
                 mism.append((b, r, mu, mf))
+            elif known_class(b):
+                variant["fixed" if mu != mf else "both"] += 1
     if mism:
         b, r, mu, mf = mism[0]
         res.tie_broken("correspondence C20/DISPLAY: model and implementation disagree on %d of %d inputs"
                        % (len(mism), compared),
-                       "first: bits=%s (%r) impl=%s model=%s model(repaired)=%s"
+                       "first: bits=%s (%r) impl=%s model(pre-60da55e)=%s model=%s"
                        % (hx(b), b2f(b), txt(r), txt(mu), txt(mf)))
     validated += compared - len(mism)
 
@@ -473,21 +478,23 @@ def main(argv):
     for b, t, f in fails[:5]:
         res.violation("display form violates C20: %s" % f, replay_dict(b, t, "a numeral within one unit of the 15th digit"))
 
-    # ---- known findings
-    for e in known:
+    # ---- known findings (open ones are reported; the witness data of fixed ones is still validated)
+    for e in c.load_known(PID):
         w = e["witness"]
         b = int(w["bits"], 16)
-        out = c.harness_lines_resilient(h, "c20-display", [hx(b)])[0]
-        f = property_failure(b, txt(out))
-        line = "%s %s" % (e["id"], e["what"])
-        if f is None:
-            line += " (no longer reproduces)"
-        res.known(line)
-        # the log10 values used by the Coq lemma C20_accuracy_refuted are those of the real function
+        if e.get("status") == "open":
+            out = c.harness_lines_resilient(h, "c20-display", [hx(b)])[0]
+            f = property_failure(b, txt(out))
+            line = "%s %s" % (e["id"], e["what"])
+            if f is None:
+                line += " (no longer reproduces)"
+            res.known(line)
+        # the log10 values used by the Coq lemmas C20_F1_before_repair / C20_F1_repaired are those of
+        # the real function
         for arg, val in w.get("log10_table", []):
             got = c.harness_lines_resilient(h, "c20-log10", [arg])[0]
             if got != val:
-                res.tie_broken("C20_accuracy_refuted: f64::log10(%s) is %s, the lemma's table says %s" % (arg, got, val))
+                res.tie_broken("C20_F1 lemmas: f64::log10(%s) is %s, the lemmas' table says %s" % (arg, got, val))
 
     res.coverage["evaluations"] = len(sinputs) + len(inputs) + len(rust_lst) + res.streams.get("ORACLE", {}).get("cases", 0)
     res.coverage["distinct_nontrivial"] = sum(1 for b in sinputs if not is_nan_bits(b) and not is_inf_bits(b)
